@@ -60,6 +60,10 @@ func (m *SlidingWindowMetric) getBucketStartRange(timeMs uint64) (start, end uin
 	curBucketStartTime := calculateStartTime(timeMs, m.real.BucketLengthInMs())
 	end = curBucketStartTime
 	start = end - uint64(m.intervalInMs) + uint64(m.real.BucketLengthInMs())
+	if end+uint64(m.real.BucketLengthInMs()) < uint64(m.intervalInMs) {
+		// The window reaches back before time zero: avoid the unsigned wrap-around of start.
+		start = 0
+	}
 	return
 }
 
